@@ -19,7 +19,7 @@
 (***************************************************************************)
 EXTENDS Grammar, Json, IOUtils, TLC, FiniteSets, SequencesExt
 
-CONSTANTS MaxLen, EmitReplay, UseCorpus
+CONSTANTS MaxLen, EmitReplay, UseCorpus, RowMode
 
 Tok(k, txt, cps, src) == [k |-> k, s |-> 0, e |-> 0, txt |-> txt, cs |-> cps, src |-> src]
 Alphabet ==
@@ -59,6 +59,28 @@ NextFree == /\ tag = "free" /\ Len(T) < MaxLen
             /\ \E t \in Alphabet : T' = Append(T, t)
             /\ UNCHANGED <<HT, tag>>
 
+\* row mode: every data row of up to MaxLen entries under a two-column header, the entries being whole
+\* entry forms (a bits(...) entry is six tokens) -- reaches what the token-by-token enumeration cannot
+IntTok(txt, cps) == Tok("DecInt", "", cps, txt)
+BitsEntry(txt, cps) == << Tok("Bits", "", <<>>, "bits"), Tok("LParen", "", <<>>, "("), IntTok(txt, cps), Tok("Comma", "", <<>>, ","),
+                         IntTok("1", <<49>>), Tok("RParen", "", <<>>, ")") >>
+EntryForms ==
+  { <<IntTok("1", <<49>>)>>, <<Tok("Ident", "X", <<>>, "X")>>, <<Tok("Ident", "C", <<>>, "C")>>, <<Tok("Ident", "Z", <<>>, "Z")>>,
+    <<Tok("LParen", "", <<>>, "("), Tok("Ident", "a", <<>>, "a"), Tok("RParen", "", <<>>, ")")>>,
+    BitsEntry("2", <<50>>), BitsEntry("1", <<49>>), BitsEntry("0", <<48>>), BitsEntry("64", <<54, 52>>), BitsEntry("65", <<54, 53>>),
+    BitsEntry("256", <<50, 53, 54>>), BitsEntry("257", <<50, 53, 55>>), BitsEntry("258", <<50, 53, 56>>),
+    <<Tok("Eol", "", <<>>, "\n")>> }
+Header2 == << [k |-> "SignalName", s |-> 0, e |-> 1, txt |-> "A", cs |-> <<>>, src |-> "A"],
+              [k |-> "SignalName", s |-> 2, e |-> 3, txt |-> "B", cs |-> <<>>, src |-> "B"],
+              [k |-> "HeaderEol", s |-> 3, e |-> 4, txt |-> "", cs |-> <<>>, src |-> "\n"] >>
+InitRows == T = <<>> /\ HT = Header2 /\ tag = "r"
+\* tag counts the entries: "r", "rr", ...
+TagDepth(t) == CASE t = "r" -> 0 [] t = "rr" -> 1 [] t = "rrr" -> 2 [] t = "rrrr" -> 3 [] OTHER -> 99
+NextRows == /\ RowMode /\ TagDepth(tag) < MaxLen
+            /\ \E en \in EntryForms : T' = T \o en
+            /\ tag' = (CASE tag = "r" -> "rr" [] tag = "rr" -> "rrr" [] tag = "rrr" -> "rrrr" [] tag = "rrrr" -> "rrrrr")
+            /\ UNCHANGED HT
+
 \* corpus mode: the initial states are the corpus programs; each has its single-token edits as successors
 InitCorpus == \E p \in DOMAIN Corpus : T = Corpus[p].toks /\ HT = Corpus[p].htoks /\ tag = "corpus"
 Without(S, j) == SubSeq(S, 1, j - 1) \o SubSeq(S, j + 1, Len(S))
@@ -73,8 +95,8 @@ NextCorpus == /\ tag = "corpus"
               /\ tag' = "edit"
               /\ UNCHANGED HT
 
-Init == IF UseCorpus THEN InitCorpus ELSE InitFree
-Next == NextFree \/ NextCorpus
+Init == IF UseCorpus THEN InitCorpus ELSE IF RowMode THEN InitRows ELSE InitFree
+Next == NextFree \/ NextCorpus \/ NextRows
 Spec == Init /\ [][Next]_vars
 
 -----------------------------------------------------------------------------
